@@ -238,7 +238,8 @@ def run(ctx):
                         for fail_at in [None] + (list(range(len(parts))) if len(seq) <= 3 or rnd.random() < 0.2 else []):
                             for clear_at in [None] + ([rnd.randrange(len(parts))] if len(parts) > 1 else []):
                                 d = Scripted()
-                                ov = OV("o", minimum=0.0, maximum=1.0, lock_previous=cfg[0], default_value=cfg[1], lock_range=cfg[2], defuzzifier=d)
+                                lo_, hi_ = [(0.0, 1.0), (0.0, 1.0), (0.0, math.inf), (-math.inf, 1.0)][(i + len(parts) + FORMS.index(form)) % 4]
+                                ov = OV("o", minimum=lo_, maximum=hi_, lock_previous=cfg[0], default_value=cfg[1], lock_range=cfg[2], defuzzifier=d)
                                 for k, p in enumerate(parts):
                                     if clear_at == k:
                                         ov.clear()
@@ -277,6 +278,12 @@ def run(ctx):
             lo = rnd.choice([0.0, -2.5, 1.0])
             hi = lo + rnd.choice([1.0, 0.5, 10.0])
             default = cfg[1] if math.isnan(cfg[1]) else rnd.choice([lo + 0.25 * (hi - lo), hi + 1.5, lo - 0.5, lo, hi])
+            shape = rnd.choice(["finite", "finite", "left-open", "right-open", "unbounded"])
+            if shape in ("left-open", "unbounded"):
+                lo = -math.inf
+            if shape in ("right-open", "unbounded"):
+                hi = math.inf
+            ctx.hit(f"range:{shape}")
             d = Scripted()
             ov = OV("o", minimum=lo, maximum=hi, lock_previous=cfg[0], default_value=default, lock_range=cfg[2], defuzzifier=d)
             hist = []
@@ -291,7 +298,8 @@ def run(ctx):
                     hist.append("fail")
                 else:
                     n = rnd.choice([1, 1, 2, 3, 5, 12])
-                    chunk = [rnd.choice([nan, nan, rnd.uniform(lo, hi), lo - rnd.random(), hi + rnd.random(), lo, hi, math.inf, -math.inf]) for _ in range(n)]
+                    flo, fhi = (lo if math.isfinite(lo) else -3.0), (hi if math.isfinite(hi) else 3.0)
+                    chunk = [rnd.choice([nan, nan, rnd.uniform(flo, fhi), flo - rnd.random(), fhi + rnd.random(), flo, fhi, math.inf, -math.inf]) for _ in range(n)]
                     d.queue = [chunk_value(chunk, rnd.choice(FORMS))]
                     hist.append(chunk)
                 try:
@@ -306,7 +314,7 @@ def run(ctx):
         reach.report(ctx)
     ctx.exhaustive = True
     ctx.extra["exhaustive_space"] = f"4^n sequences (n<=3 fully, n<={L} with sampled forms/faults) x 2^(n-1) splits x 12 settings x 4 result forms x failure at each call x clear"
-    ctx.require("hook:OutputVariable.defuzzify", "hook:OutputVariable.clear", "event:defuzzified:batch", "event:defuzzified:scalar", "event:defuzzifier_raised", "event:disabled", "event:clear", "piece:clipped", "piece:kept")
+    ctx.require("hook:OutputVariable.defuzzify", "hook:OutputVariable.clear", "event:defuzzified:batch", "event:defuzzified:scalar", "event:defuzzifier_raised", "event:disabled", "event:clear", "piece:clipped", "piece:kept", "range:left-open", "range:right-open", "range:unbounded")
     for lp in (0, 1):
         for d in ("nan", "in", "out"):
             for lr in (0, 1):
